@@ -148,6 +148,8 @@ def to_sympy(t, symtab=None):
         return outer(inner(u))
     if k == "abs2":
         return sympy.sqrt((to_sympy(t[1], symtab) - 2) ** 2)
+    if k == "ufun":  # a user-defined function supplied through Config.python_modules (Python back-end only)
+        return sympy.Function("verif_sat")(to_sympy(t[1], symtab))
     f = {"sin": sympy.sin, "cos": sympy.cos, "tanh": sympy.tanh, "atan": sympy.atan, "exp": sympy.exp,
          "sqrt": sympy.sqrt, "log": sympy.log, "sec": sympy.sec, "tan": sympy.tan}[k]
     return f(to_sympy(t[1], symtab))
@@ -182,6 +184,8 @@ def eval_mp(t, env):
         return {"atan": lambda v: mp.atan(mp.tan(v)), "asin": lambda v: mp.asin(mp.sin(v)), "acos": lambda v: mp.acos(mp.cos(v))}[t[1]](u)
     if k == "abs2":
         return abs(eval_mp(t[1], env) - 2)
+    if k == "ufun":
+        return mp.tanh(eval_mp(t[1], env)) / 2
     return _MPF[k](eval_mp(t[1], env))
 
 
@@ -228,6 +232,8 @@ def scales(t, env, pmin=0.5):
     a, da = scales(t[1], env, pmin)
     if k == "abs2":
         return mp.mpf(3), da
+    if k == "ufun":
+        return mp.mpf(1), da
     if k in ("sin", "cos", "tanh"):
         return mp.mpf(1), da
     if k == "atan":
